@@ -297,8 +297,8 @@ class AbstractPWA(Alignment, Transform, Invertible):
             n_points = x.shape[0]
             exception_thrown = False
             for lo_ind in range(0, n_points, batch_size):
+                hi_ind = min(lo_ind + batch_size, n_points)
                 try:
-                    hi_ind = lo_ind + batch_size
                     outputs.append(self._apply(x[lo_ind:hi_ind], **kwargs))
                 except TriangleContainmentError as e:
                     exception_thrown = True
@@ -306,7 +306,7 @@ class AbstractPWA(Alignment, Transform, Invertible):
                 else:
                     # No exception was thrown, so all points were inside
                     points_outside_source_domain.append(
-                        np.zeros(batch_size, dtype=bool)
+                        np.zeros(hi_ind - lo_ind, dtype=bool)
                     )
 
             if exception_thrown:
